@@ -7,7 +7,7 @@ use bed_utils::verif_hooks::{Interval, Lapper};
 pub type Iv = Interval<u64, u64>;
 
 /// coordinate types the index is instantiated with (`Lapper<I, T>` is generic over `I: PrimInt`)
-pub trait Coord: num_traits::PrimInt + serde::Serialize + serde::de::DeserializeOwned + std::fmt::Debug + Send + Sync + 'static {
+pub trait Coord: num_traits::PrimInt + serde::Serialize + serde::de::DeserializeOwned + std::fmt::Debug + std::fmt::Display + Default + std::hash::Hash + Send + Sync + 'static {
     const MIN_: i128; const MAX_: i128;
     fn of(x: i128) -> Self;
     fn to(self) -> i128;
@@ -283,7 +283,11 @@ pub fn gen_large_hist(rng: &mut Rng, n: usize, val0: u64) -> (Hist, Vec<u64>) {
         let i = lo + rng.below(b - lo - 420); init.push((10 * i + 3, 10 * (i + 300) + 1, val0 + 3_000_000)); pts.push(10 * i + 3); pts.push(10 * (i + 300) + 1);
     }
     if rng.chance(1, 2) { rng.shuffle(&mut init); }
-    (Hist { init, ops: if rng.chance(1, 3) { vec![Op::SetCov] } else { vec![] } }, pts)
+    // sometimes ONE insert at the very front after the bulk load: every interval moves one place up in start order (a seam-
+    // bridging interval crosses its block boundary)
+    let mut ops = if rng.chance(1, 3) { vec![Op::SetCov] } else { vec![] };
+    if rng.chance(1, 2) { ops.push(Op::Insert(0, 1, val0 + 9_000_000)); }
+    (Hist { init, ops }, pts)
 }
 /// ascending queries around the given points and at random places of a large set
 pub fn large_queries(rng: &mut Rng, pts: &[u64], n: usize, k: usize) -> Vec<(u64, u64)> {
